@@ -4,6 +4,7 @@ package simpledb
 
 import (
 	"path/filepath"
+	"sync/atomic"
 
 	"github.com/thomasjungblut/go-sstables/memstore"
 	"github.com/thomasjungblut/go-sstables/simpledb/proto"
@@ -104,7 +105,7 @@ func verifPhase(db *DB, phase string) {
 	db.sstableManager.managerLock.RLock()
 	tables := verifTablesOf(db.sstableManager.allSSTableReaders)
 	db.sstableManager.managerLock.RUnlock()
-	verifEmit(phase, map[string]any{"tables": tables, "gen": db.currentGeneration})
+	verifEmit(phase, map[string]any{"tables": tables, "gen": atomic.LoadUint64(&db.currentGeneration)})
 }
 
 // ---- helpers for the harness: deterministic placement of rotation, flush and compaction cycles ----
